@@ -1,5 +1,6 @@
 import BevySyncModel.Slice.Filter
 import BevySyncModel.Generated.Filter
+import BevySyncModel.Generated.Sync
 /-! # C04 — only opted-in data ever leaves a peer -/
 namespace BevySync
 namespace Props
@@ -15,6 +16,11 @@ theorem C04_filters_tie :
     Generated.snapshotChecksRegistration = true ∧ Generated.snapshotChecksExclusion = true ∧
     Generated.snapshotGatedBySwitch = true ∧ Generated.snapshotSkipsIndexIds = true ∧
     Generated.createdOnlyOnSyncMark = true := by decide
+
+/-- (tie) "evaluated when the change is detected" stands for "when it leaves": a detected change is sent in the same frame —
+both `react_on_changed_components` drain the whole queue every frame they run, with no way out of the loop or the function
+before it is empty (whether or not anybody is connected) -/
+theorem C04_detected_is_sent_tie : Generated.reactDrainsWholeQueue = true := by decide
 
 /-- **live updates**: every component message the detection pass originates is for a registered type
 on a synchronized entity that does not carry the exclusion, evaluated when the change is detected -/
